@@ -4,6 +4,7 @@ from .. import rules_emit as re_
 from ..eng import EngineModel
 from .. import rules_query as rq
 from .. import rules_state as rs
+from .. import rules_extra as rx
 
 
 def check(repo, rep, tier):
@@ -23,4 +24,5 @@ def check(repo, rep, tier):
     rs.rule_script_globals(em, rep, 'C12.T5')
     rq.rule_atomic_load(em, rep, 'C12.T5b')
     rq.rule_api_unreachable(em, rep, 'C12.T5c')
+    rx.rule_lookup_confined(em, rep, 'C12.T5d')
     re_.rule_comment_safe_writes(cm, rep, 'C12.T6')
